@@ -683,6 +683,38 @@ func runProperty() int {
 		if *noNative {
 			continue
 		}
+		if h.Opts["native"] == "off" {
+			// The harness environment is entirely a symbolic-only model (e.g. the crash model of the
+			// file system): there is nothing to run natively. Witnesses and counterexamples are
+			// re-executed concretely by the engine over the same real SSA code plus the model.
+			for _, w := range res.Witnesses {
+				oc, _, reached, _ := eng.RunConcrete(fn, cfg, w.Vector)
+				totalValidated++
+				if oc != "ok" || strings.Join(reached, ",") != strings.Join(w.Reached, ",") {
+					totalDisagree++
+					inconclusive = append(inconclusive, fmt.Sprintf("%s: concrete re-execution of a witness disagrees (outcome %s, reached %v, expected %v)", h.Name, oc, reached, w.Reached))
+				}
+			}
+			for vi, v := range res.Violations {
+				oc, msg, _, _ := eng.RunConcrete(fn, cfg, v.Vector)
+				confirmed := (v.Kind == "assert" && oc == "assert" && strings.HasPrefix(msg, v.Msg)) || (v.Kind == "panic" && oc == "panic")
+				rf := replayFile{Property: *prop, Harness: h.Name, Dir: h.Dir, Kind: v.Kind, Msg: v.Msg, Site: v.Site, Names: v.Names, Vector: v.Vector, Native: "model-replay " + oc + ": " + clip(msg, 300)}
+				rp := filepath.Join(replayDir, fmt.Sprintf("%s_%s_%d.json", *prop, h.Name, vi))
+				b, _ := json.MarshalIndent(rf, "", " ")
+				os.WriteFile(rp, b, 0o644)
+				if !confirmed {
+					inconclusive = append(inconclusive, fmt.Sprintf("%s: counterexample for %q did not reproduce under concrete re-execution (%s)", h.Name, v.Msg, oc))
+					continue
+				}
+				if k := matchKnown(known, *prop, h.Name, v); k != nil {
+					knownLines = append(knownLines, fmt.Sprintf("KNOWN-FINDING: property=%s %s (harness %s: %s; replay=%s)", *prop, k.What, h.Name, v.Msg, rp))
+					continue
+				}
+				violLines = append(violLines, fmt.Sprintf("VIOLATION property=%s replay=%s", *prop, rp))
+				fmt.Printf("  violation detail: harness=%s kind=%s msg=%q site=%s inputs=%s (replayed by concrete re-execution over the environment model)\n", h.Name, v.Kind, v.Msg, v.Site, fmtInputs(v))
+			}
+			continue
+		}
 		// ---- translator validation: witnesses and random concrete vectors, natively vs engine ----
 		var jobs []job
 		type expect struct {
@@ -1005,6 +1037,23 @@ func redirectMatches(f *ssa.Function, name string) bool {
 	left, right := name[:i], name[i+1:]
 	if f.Name() != right {
 		return false
+	}
+	// "pkgname.Type.method" (any package, e.g. os.File.Write)
+	if j := strings.Index(left, "."); j >= 0 {
+		pkgName, typeName := left[:j], left[j+1:]
+		if recv := f.Signature.Recv(); recv != nil {
+			t := recv.Type()
+			if p, ok := t.(*types.Pointer); ok {
+				t = p.Elem()
+			}
+			if n, ok := t.(*types.Named); ok {
+				return n.Obj().Name() == typeName && n.Obj().Pkg() != nil && n.Obj().Pkg().Name() == pkgName
+			}
+		}
+		return false
+	}
+	if f.Signature.Recv() == nil && f.Pkg != nil && f.Pkg.Pkg.Name() == left && (left == "os" || left == "syscall") {
+		return true // os.OpenFile, os.Rename, os.Remove …
 	}
 	if recv := f.Signature.Recv(); recv != nil {
 		t := recv.Type()
